@@ -182,6 +182,8 @@ def oracle_verdict(case: dict, rows) -> str | None:
 def is_threshold_fragile(case: dict) -> bool:
     """A weight threshold whose probability lands within rounding of an edge probability is excluded
     (the property's own wording: equivalence up to floating point)."""
+    if case.get("thr") is not None and case.get("engine") == "sqlite" and not core.sqlite_literal_exact(oracle_threshold(case)):
+        return True  # SQLite reads this decimal literal one ulp high (engine defect, see core.sqlite_literal_exact)
     if case.get("thr") is None or case.get("thr_kind") != "weight":
         return False
     t = oracle_threshold(case)
@@ -359,7 +361,7 @@ def compare(ctx: core.Ctx, cases: list[dict], drv: core.Driver, label="corr"):
             problems.append((c, verdict, True, r))
             continue
         if fragile:
-            ctx.count("excluded", "weight threshold within 1e-12 of an edge probability")
+            ctx.count("excluded", "weight threshold within 1e-12 of an edge probability / SQLite misreads the threshold literal")
             continue
         if mrows != r["rows"]:
             problems.append((c, "cluster table differs from Lean model CC.cluster (real output still satisfies the property)", False, r))
